@@ -1,10 +1,10 @@
 SPECIFICATION Spec
 CONSTANTS
   Kind = "ia"
-  Units = 7
-  Grain = 4
+  Units = 6
+  Grain = 2
   Heads = 1
-  UncoCand = {2, 4}
+  UncoCand = {2, 3}
   GrowSteps = {}
   InitUnco = FALSE
   UPP = 4
